@@ -206,6 +206,54 @@ Example C04_tail_f_nonvacuous :
     /\ chain_out nat nat c [5; 6] = [5; 6].
 Proof. exact tail_f_nonvacuous. Qed.
 
+(* ======================= the writer's flush decision; at rest = no enabled step (coq/C04/Flush.v) ======================= *)
+(* The writer step of the tail -f model IS channelWriterHandleBatch's loop item by item with the code's rule "flush
+   after EVERY item, record or print/dump/comment text, when --fflush" (then stream.go's final Flush on end of stream) *)
+Theorem C04_writer_step_is_per_item_flush :
+  forall (item vst : Type) (fflush : bool) (s : fstate item vst) (b : batch item) (q : list (batch item)),
+    dwq item vst (fd item vst s) = b :: q -> (fflush = true -> buffered item vst s = []) ->
+    fwriter_succs item vst fflush s =
+      let r := write_items item fflush (flush_every_item item) (fst b) (flushed item vst s) (buffered item vst s) in
+      let d' := mkD item vst (rrem item vst (fd item vst s)) (dvs item vst (fd item vst s)) q (dwritten item vst (fd item vst s) ++ [b]) in
+      [if snd b then mkF item vst d' (fst r ++ snd r) [] else mkF item vst d' (fst r) (snd r)].
+Proof. exact fwriter_succs_per_item. Qed.
+Print Assumptions C04_writer_step_is_per_item_flush.
+
+(* a rule that flushes after records only leaves a text-only batch (put -q 'print ...', dump, passed comments) in the
+   buffer although --fflush is on, while the code's rule makes it visible *)
+Theorem C04_flush_after_records_only_refuted :
+  exists (after : nat + nat -> bool) (l : list (nat + nat)),
+    (forall r, after (inl r) = true) /\ l <> [] /\
+    write_items (nat + nat) true after l [] [] = ([], l) /\
+    write_items (nat + nat) true (flush_every_item (nat + nat)) l [] [] = (l, []).
+Proof. exact flush_after_records_only_refuted. Qed.
+Print Assumptions C04_flush_after_records_only_refuted.
+
+(* "at rest" is EXACTLY "no verb step and no writer step is enabled", while the batches handed over so far are non-end
+   batches (the pipe is open) and the verbs pass the end-of-stream bit through (true of every verb driven by
+   runSingleTransformerBatch) *)
+Theorem C04_at_rest_iff_no_enabled_step :
+  forall (item vst : Type) (fl : bool) (vs : list (dverb item vst * vst)) (delivered pending : list (batch item))
+         (s : fstate item vst),
+    all_pres item vst vs -> forallb (ne item) delivered = true ->
+    freach item vst fl (finit item vst vs (delivered ++ pending)) s -> rrem item vst (fd item vst s) = pending ->
+    (fquiet item vst s = true <-> nonreader_fsuccs item vst fl s = []).
+Proof. exact quiet_iff_no_step. Qed.
+Print Assumptions C04_at_rest_iff_no_enabled_step.
+
+(* the tail -f contract with the rest condition as enabledness: --fflush, one record per batch, fully streaming verbs,
+   the records [delivered] handed over and neither the chain nor the writer able to move: stdout shows the complete
+   output of the chain on those records and the buffer is empty *)
+Theorem C04_tail_f_streaming_chain_no_enabled_step :
+  forall (item st : Type) (c : list (sverb item st * st)) (delivered : list item) (pending : list (batch item))
+         (s : fstate item st),
+    all_streaming item st c ->
+    freach item st true (finit item st (dchain item st c) (singletons item delivered ++ pending)) s ->
+    rrem item st (fd item st s) = pending -> nonreader_fsuccs item st true s = [] ->
+    flushed item st s = chain_out item st c delivered /\ buffered item st s = [].
+Proof. exact streaming_tail_f_no_step. Qed.
+Print Assumptions C04_tail_f_streaming_chain_no_enabled_step.
+
 (* ======================= refinement: the data-carrying model with done flags projects onto the skeleton ======================= *)
 From Miller Require Import C04.DataFlags C04.Refine C04.EarlyExit C04.EarlyInst.
 
@@ -246,8 +294,8 @@ Print Assumptions C04_data_model_every_run_terminates.
    producer shapes (keep = 1: line readers; keep = 0: seqgen), a run that has drained wrote -- up to the cutting into
    batches -- exactly the sequential composition of the verbs applied to the WHOLE input: the done signal only
    truncates input the chain would have discarded anyway.
-   PARTIAL in one respect: "has drained" is the hypothesis [fquiescent]; that every exited run (ffinal) is drained is
-   proved for the control part only (C17_exit0_implies_complete via the projection), not for queue contents. *)
+   Here "has drained" is the hypothesis [fquiescent]; C04_exited_run_is_drained below proves it of every exited run, and
+   C04_early_exit_determinism_exited is the statement without it. *)
 Theorem C04_early_exit_determinism :
   forall (rec str st : Type) (keep nq : nat) (vs : list (@verb rec str st * st)) (bs : list (list (@item rec str))) s,
     chain_ok nq vs -> forallb recs_only bs = true -> DataFlags.freach keep (DataFlags.finit vs bs) s -> fquiescent s ->
@@ -289,3 +337,132 @@ Example C04_early_exit_nonvacuous :
   exists s, frun_sched 1 schedH (DataFlags.finit (chain_of hh) four) = Some s /\ fquiescentb s = true /\ ffinal s = true
             /\ length (frem s) < 3 /\ flat (fout s) = [inl 2; inl 1].
 Proof. exact early_exit_nonvacuous. Qed.
+
+(* ======================= every exited run is drained (coq/C04/Drained.v) ======================= *)
+From Miller Require Import C04.Drained.
+
+(* For every chain, input, producer shape and interleaving: when main has exited, the producer has sent its
+   end-of-stream marker, every verb goroutine has forwarded it and its input channel is EMPTY, and the writer channel is
+   EMPTY (queue contents, not only control points: the end-of-stream marker is always the last batch in flight). *)
+Theorem C04_exited_run_is_drained :
+  forall (rec str st : Type) (keep : nat) (vs : list (@verb rec str st * st)) (bs : list (list (@item rec str))) s,
+    DataFlags.freach keep (DataFlags.finit vs bs) s -> ffinal s = true -> fquiescent s.
+Proof. exact (@exited_run_is_drained). Qed.
+Print Assumptions C04_exited_run_is_drained.
+
+Theorem C04_writer_done_is_drained :
+  forall (rec str st : Type) (keep : nat) (vs : list (@verb rec str st * st)) (bs : list (list (@item rec str))) s,
+    DataFlags.freach keep (DataFlags.finit vs bs) s -> fwr s = WDone ->
+    fquiescent s /\ Forall (fun g => fp g = FDone) (fvs s).
+Proof. exact (@writer_done_is_drained). Qed.
+Print Assumptions C04_writer_done_is_drained.
+
+(* the early-exit determinism theorem for every run that has EXITED (no "drained" hypothesis) ... *)
+Theorem C04_early_exit_determinism_exited :
+  forall (rec str st : Type) (keep nq : nat) (vs : list (@verb rec str st * st)) (bs : list (list (@item rec str))) s,
+    chain_ok nq vs -> forallb recs_only bs = true -> DataFlags.freach keep (DataFlags.finit vs bs) s -> ffinal s = true ->
+    flat (fout s) = flat (DataFlags.seq_chain vs (whole bs)).
+Proof. exact (@early_exit_determinism_exited). Qed.
+Print Assumptions C04_early_exit_determinism_exited.
+
+(* ... so any two exited runs (any two schedules) of such a chain on the same input wrote the same bytes *)
+Theorem C04_two_exited_runs_agree :
+  forall (rec str st : Type) (keep nq : nat) (vs : list (@verb rec str st * st)) (bs : list (list (@item rec str))) s1 s2,
+    chain_ok nq vs -> forallb recs_only bs = true ->
+    DataFlags.freach keep (DataFlags.finit vs bs) s1 -> ffinal s1 = true ->
+    DataFlags.freach keep (DataFlags.finit vs bs) s2 -> ffinal s2 = true ->
+    flat (fout s1) = flat (fout s2).
+Proof. exact (@early_exit_two_exited_runs_agree). Qed.
+Print Assumptions C04_two_exited_runs_agree.
+
+(* non-vacuity: the run of C04_early_exit_nonvacuous has exited (ffinal) -- its hypotheses are those of the theorems above *)
+Example C04_exited_nonvacuous :
+  exists s, DataFlags.freach 1 (DataFlags.finit (chain_of hh) four) s /\ ffinal s = true /\ fquiescent s
+            /\ flat (fout s) = [inl 2; inl 1].
+Proof.
+  destruct early_exit_nonvacuous as (_ & s & Hrun & Hq & Hf & _ & Hout).
+  exists s. split; [now apply frun_sched_reach in Hrun|]. split; [exact Hf|]. split; [now apply fquiescentb_ok|exact Hout].
+Qed.
+
+(* ======================= every producer shape: no deadlock, termination (coq/C04/KeepGen.v) ======================= *)
+From Miller Require Import C04.KeepGen.
+
+(* For EVERY producer shape [keep] (1: line readers; 0: seqgen, `seqgen then head`; any other value): the only step that
+   is not a step of the keep = 1 model -- the producer's poll that finds the done flag -- strictly decreases the
+   skeleton's termination measure of the projection and preserves its progress invariant.  Hence: *)
+Theorem C04_data_model_no_infinite_runs_any_producer :
+  forall (rec str st : Type) (keep : nat), well_founded (fun (s' s : @DataFlags.fstate rec str st) => DataFlags.fstep keep s s').
+Proof. exact (@data_no_infinite_runs_keep). Qed.
+Print Assumptions C04_data_model_no_infinite_runs_any_producer.
+
+Theorem C04_data_model_no_deadlock_any_producer :
+  forall (rec str st : Type) (keep : nat) (vs : list (@verb rec str st * st)) (bs : list (list (@item rec str))) s,
+    vs <> [] -> DataFlags.freach keep (DataFlags.finit vs bs) s -> ffinal s = false -> exists s', DataFlags.fstep keep s s'.
+Proof. exact (@data_no_deadlock_keep). Qed.
+Print Assumptions C04_data_model_no_deadlock_any_producer.
+
+Theorem C04_data_model_every_run_terminates_any_producer :
+  forall (rec str st : Type) (keep : nat) (vs : list (@verb rec str st * st)) (bs : list (list (@item rec str))), vs <> [] ->
+  forall s, DataFlags.freach keep (DataFlags.finit vs bs) s -> exists s', DataFlags.freach keep s s' /\ ffinal s' = true.
+Proof. exact (@data_every_run_terminates_keep). Qed.
+Print Assumptions C04_data_model_every_run_terminates_any_producer.
+
+(* non-vacuity for the seqgen shape: cat then head -n 2 with keep = 0 has an exited run in which the producer was cut
+   short, and it wrote the first two records *)
+Definition seqgen_head : list vdesc := [DCat; DHead 2].
+Definition schedS : list nat := Eval vm_compute in sched_lazy 0 400 (DataFlags.finit (chain_of seqgen_head) four).
+Example C04_seqgen_shape_nonvacuous :
+  exists s, frun_sched 0 schedS (DataFlags.finit (chain_of seqgen_head) four) = Some s /\ ffinal s = true
+            /\ flat (fout s) = [inl 1; inl 2].
+Proof.
+  destruct (frun_sched 0 schedS (DataFlags.finit (chain_of seqgen_head) four)) as [s|] eqn:E; [|vm_compute in E; discriminate].
+  exists s. split; [reflexivity|]. vm_compute in E. inversion E; subst s. vm_compute. split; reflexivity.
+Qed.
+
+(* ======================= record context: NR in end blocks (coq/C04/CtxModel.v) ======================= *)
+From Miller Require Import C04.CtxModel.
+
+(* The data model with done flags PLUS the context of the end-of-stream marker (the producer's record count when it
+   sends the marker; every verb forwards the same marker, end blocks run with its context).  For chains WITHOUT
+   early-exit verbs (no verb ever raises the done flag; printing allowed anywhere), every producer shape, every
+   batching and interleaving: an exited run has handed over EVERY record (so NR in every end block is the total record
+   count) and wrote the sequential result. *)
+Theorem C04_context_determinism_without_early_exit :
+  forall (rec str st : Type) (keep : nat) (vs : list (@verb rec str st * st)) (bs : list (list (@item rec str))) (c : cstate),
+    chain_ok 0 vs -> forallb recs_only bs = true -> creach keep (CtxModel.cinit vs bs) c -> ffinal (fst c) = true ->
+    snd c = total_recs bs /\ flat (fout (fst c)) = flat (DataFlags.seq_chain vs (whole bs)).
+Proof. exact (@ctx_determinism_no_early_exit). Qed.
+Print Assumptions C04_context_determinism_without_early_exit.
+
+(* ... for chains of cat / tac / put 'print NR' / put -q 'end{print NR}': any two exited runs render the same stdout *)
+Theorem C04_context_two_runs_agree_without_head :
+  forall (keep : nat) (ds : list cdesc) (bs : list (list nat)) (c1 c2 : cstate),
+    forallb no_head ds = true ->
+    creach keep (CtxModel.cinit (cchain ds) (cbatches bs)) c1 -> ffinal (fst c1) = true ->
+    creach keep (CtxModel.cinit (cchain ds) (cbatches bs)) c2 -> ffinal (fst c2) = true ->
+    render (snd c1) (flat (fout (fst c1))) = render (snd c2) (flat (fout (fst c2))).
+Proof. exact ctx_determinism_inst. Qed.
+Print Assumptions C04_context_two_runs_agree_without_head.
+
+(* the counter is a ghost: every run of the context model is a run of the data model with done flags *)
+Theorem C04_context_model_projects :
+  forall (rec str st : Type) (keep : nat) (vs : list (@verb rec str st * st)) (bs : list (list (@item rec str))) (c : cstate),
+    creach keep (CtxModel.cinit vs bs) c -> DataFlags.freach keep (DataFlags.finit vs bs) (fst c).
+Proof. exact (@creach_freach). Qed.
+Print Assumptions C04_context_model_projects.
+
+(* The known-finding class "end-block context downstream of an early-exit verb" on the faithful model:
+   head -n 1 then put -q 'end{print NR}' on six one-record batches has two exited runs printing different NR. *)
+Theorem C04_end_NR_downstream_of_head_refuted :
+  exists c1 c2, creach 1 (CtxModel.cinit head_endnr six) c1 /\ creach 1 (CtxModel.cinit head_endnr six) c2
+                /\ ffinal (fst c1) = true /\ ffinal (fst c2) = true
+                /\ render (snd c1) (flat (fout (fst c1))) <> render (snd c2) (flat (fout (fst c2))).
+Proof. exact end_NR_downstream_of_head_refuted. Qed.
+Print Assumptions C04_end_NR_downstream_of_head_refuted.
+
+(* non-vacuity: put 'print NR' then tac then put -q 'end{print NR}': an exited run, NR in the end block is 6 *)
+Example C04_context_nonvacuous :
+  forallb no_head ctx_chain = true /\
+  exists c, crun_sched 1 cschedC (CtxModel.cinit (cchain ctx_chain) six) = Some c /\ ffinal (fst c) = true /\ snd c = 6
+            /\ render (snd c) (flat (fout (fst c))) = [(1,1);(1,2);(1,3);(1,4);(1,5);(1,6);(2,6)].
+Proof. exact ctx_nonvacuous. Qed.
